@@ -168,9 +168,11 @@ def harnesses(tier):
         return [H(op, seqs) for op, seqs in QUICK]
     hs = []
     for op in OPS:
-        for pair in itertools.product(SEQ_T, repeat=2):
+        # flat_map = map + merge_all: the full pair table is explored for merge_all, a diagonal for flat_map
+        pairs = itertools.product(SEQ_T, repeat=2) if op != "flat_map" else [(a, a) for a in SEQ_T]
+        for pair in pairs:
             hs.append(H(op, pair))
-        if op in ("merge_mc1", "merge_mc2"):
+        if op == "merge_mc2":
             for tr in itertools.product([("C",), ("N", "C")], repeat=3):
                 hs.append(H(op, tr))
     for op, seqs in DEEP:
@@ -197,7 +199,7 @@ def shard(part, shard_i, nshards, tier, seed, deadline):
 def run_part(ctx):
     before = ctx.total.counters.get("executions", 0)
     hs = harnesses(ctx.tier)
-    ctx.sharded(shard, nshards=len(hs))
+    ctx.sharded(shard, nshards=len(hs), deadline=ctx.sub_deadline(0.5))
     ex = ctx.total.counters.get("executions", 0) - before
     ctx.cov["e3_threads"] = {
         "schedules_explored": ex,
